@@ -120,8 +120,30 @@ structure StepOut where
   world : World
   err : Option String := none
 
+/-- a mount or unmount made by the administrator (not by layercake): straight to the kernel -/
+def runManual (cfg : Config) (w : World) (j : Json) : Option StepOut :=
+  let args := getBs j "args"
+  let inuse := getUsers (getArr j "users")
+  let c := getStr j "cmd"
+  if c == "sysmount" || c == "sysumount" then
+    let (res, op) := if c == "sysmount" then
+        (Kernel.kmount w.kt (argAt args 0) (argAt args 1) (argAt args 2) (getNat j "flags") [],
+         Op.mount (argAt args 0) (argAt args 1) (argAt args 2) (getNat j "flags") [])
+      else (Kernel.kumount w.kt (argAt args 0), Op.umount (argAt args 0) 0)
+    let (cls, kt) := match res with
+      | .ok kt' => ("ok", kt')
+      | .error _ => ("err", w.kt)
+    let w2 : World := { fs := w.fs, kt := kt }
+    some { json := obj [("cls", Json.str cls), ("sys", Json.arr ([op].filterMap jOp).toArray), ("nops", Json.num 0),
+                        ("tree", jTree w2.fs), ("table", jTable w2.kt), ("layers", jLayers cfg inuse w2)],
+           world := w2 }
+  else none
+
 def runStep (cfg : Config) (w : World) (j : Json) : StepOut :=
   let inuse := getUsers (getArr j "users")
+  match runManual cfg w j with
+  | some o => o
+  | none =>
   match getCmd j with
   | none => { json := obj [("cls", "bad-step")], world := w }
   | some c =>
